@@ -26,7 +26,13 @@ def run_one(name, worker, all_props, props_avail):
     copy_repo(d)
     res = {"name": name, "property": meta.get("property")}
     try:
-        p = subprocess.run(["git", "apply", "--unsafe-paths", os.path.join(sd, "patch.diff")], cwd=d, stdout=subprocess.PIPE, stderr=subprocess.STDOUT, text=True)
+        # the scratch copy lives inside /verif's git repository: stop git from discovering it, or it
+        # silently skips paths "outside the current subdirectory"
+        genv = dict(os.environ, GIT_CEILING_DIRECTORIES=os.path.dirname(d), GIT_DIR="/nonexistent")
+        p = subprocess.run(["git", "apply", "--unsafe-paths", "--verbose", os.path.join(sd, "patch.diff")], cwd=d, env=genv,
+                           stdout=subprocess.PIPE, stderr=subprocess.STDOUT, text=True)
+        if p.returncode == 0 and "Applied patch" not in p.stdout:
+            p.returncode = 1
         if p.returncode != 0:
             res["error"] = "patch does not apply: " + p.stdout[-300:]
             return res
